@@ -128,7 +128,23 @@ func Gen(seed uint64, profile string) *Scenario {
 	}
 	// (after every other source of requests, so that none of them is left naming a range)
 	metaTwins(simkit.NewRNG(seed, "bw/meta-twins"), sc)
+	if er := simkit.NewRNG(seed, "bw/escape-with-warning"); len(sc.Pkgs) > 0 && len(sc.Pkgs[0].Mods) > 0 && er.Chance(1, 12) {
+		// one analysis that declares a relative dependency climbing out of its package and also
+		// reports a warning, nothing worse: the builder's own error must not get lost behind it
+		m := &sc.Pkgs[0].Mods[0]
+		m.Deps = append(m.Deps, Dep{Kind: "local", Addr: "../../../shared", Finder: m.Finder})
+		var keep []Diag
+		for _, d := range m.Diags {
+			if d.Sev != "E" {
+				keep = append(keep, d)
+			}
+		}
+		m.Diags = append(keep, Diag{ID: "diag-warn-beside-escape", Sev: "W"})
+		sc.Adds = append([]Add{{Kind: "remote", Addr: sc.Pkgs[0].Source(m.SubPath), Finder: m.Finder}}, sc.Adds...)
+	}
 	aliasSpelling(simkit.NewRNG(seed, "bw/alias-spelling"), sc)
+	// (not with the post-build operations, whose oracles relate paths to the root as spelled)
+	sc.TargetVia = len(sc.Post) == 0 && simkit.NewRNG(seed, "bw/target-via").Chance(1, 6)
 	vr := simkit.NewRNG(seed, "bw/variants")
 	for v := 0; v < nvar; v++ {
 		va := Variant{SchedSeed: vr.U64(), Shape: simkit.Pick(vr, []string{"random", "random", "rr", "rtc"}), PermSalt: 0}
@@ -230,7 +246,7 @@ func genWorld(r *simkit.RNG, sc *Scenario, k *gknobs) {
 		// a few extra files
 		for e := r.Intn(4); e > 0; e-- {
 			l := simkit.Pick(r, locs)
-			name := simkit.Pick(r, []string{"extra.txt", "README", "vars.tf", ".hidden", "data.bin", "x y.txt", "ü.tf", "._main.tf", "._README"})
+			name := simkit.Pick(r, []string{"extra.txt", "README", "vars.tf", ".hidden", "data.bin", "x y.txt", "ü.tf", "._main.tf", "._README", "net\\work.tf"})
 			pa := join(l, name)
 			if !hasPath(p.Files, pa) {
 				mode := 0o644
@@ -254,6 +270,18 @@ func genWorld(r *simkit.RNG, sc *Scenario, k *gknobs) {
 				s := "!.terraform/environment\n"
 				p.Rules = &s
 			}
+		}
+		if nr := simkit.NewRNG(sc.Seed, fmt.Sprintf("bw/nested-builtin%d", i)); nr.Chance(1, 6) && !hasPath(p.Files, "examples") {
+			// the same kinds of content deeper down, in a package that may have neither a rule
+			// file nor anything of the kind at its top
+			for _, d := range []string{"examples", "examples/basic", "examples/basic/.terraform", "examples/basic/.terraform/providers", "examples/basic/.terraform/modules", "examples/basic/.git"} {
+				p.Files = append(p.Files, PFile{Path: d, Kind: "dir", Mode: 0o755})
+			}
+			p.Files = append(p.Files,
+				PFile{Path: "examples/basic/main.tf", Kind: "file", Body: fmt.Sprintf("EX%d;", i+1), Mode: 0o644},
+				PFile{Path: "examples/basic/.terraform/providers/p.bin", Kind: "file", Body: "PROVIDER;", Mode: 0o755},
+				PFile{Path: "examples/basic/.terraform/modules/modules.json", Kind: "file", Body: "{}", Mode: 0o644},
+				PFile{Path: "examples/basic/.git/HEAD", Kind: "file", Body: "ref: refs/heads/main", Mode: 0o644})
 		}
 		if r.Chance(1, 4) && !hasPath(p.Files, "emptydir") {
 			p.Files = append(p.Files, PFile{Path: "emptydir", Kind: "dir", Mode: 0o755})
@@ -309,6 +337,10 @@ func genWorld(r *simkit.RNG, sc *Scenario, k *gknobs) {
 						case 1:
 							dg.File = join(l, "main.tf")
 							dg.CtxFile = join(l, "main.tf")
+							if simkit.NewRNG(sc.Seed, "bw/diag-ctx-"+dg.ID).Chance(1, 2) {
+								// the context lies in another file than the subject
+								dg.CtxFile = join(l, "variables.tf")
+							}
 						case 2:
 							dg.File = "/abs/not-a-subpath"
 						}
@@ -381,6 +413,27 @@ func genWorld(r *simkit.RNG, sc *Scenario, k *gknobs) {
 			tw.Versions = append(tw.Versions, RegVer{V: v, Source: p.Source("")})
 		}
 		sc.Regs = append(sc.Regs, tw)
+	}
+	if hr := simkit.NewRNG(sc.Seed, "bw/reg-host-twins"); len(sc.Regs) >= 1 && len(sc.Regs[0].Versions) >= 1 && hr.Chance(1, 8) {
+		// the same namespace, name and system on another host: another package, whose
+		// registry offers fewer (and partly other) versions
+		first := sc.Regs[0]
+		parts := strings.Split(first.Addr, "/")
+		for _, h := range []string{"example.com", "registry.terraform.io", "reg.example.org"} {
+			if h != parts[0] {
+				parts[0] = h
+				break
+			}
+		}
+		tw := RegPkg{Addr: strings.Join(parts, "/")}
+		if sc.regIndexOf(tw.Addr) < 0 {
+			p := simkit.Pick(hr, sc.Pkgs)
+			tw.Versions = append(tw.Versions, RegVer{V: first.Versions[len(first.Versions)-1].V, Source: p.Source("")})
+			if hr.Chance(1, 2) {
+				tw.Versions = append(tw.Versions, RegVer{V: "0.1.0", Source: p.Source("")})
+			}
+			sc.Regs = append(sc.Regs, tw)
+		}
 	}
 	// dependency edges
 	for pi := range sc.Pkgs {
@@ -541,6 +594,13 @@ func metaTwins(r *simkit.RNG, sc *Scenario) {
 		rp.Versions[1].DepReason, rp.Versions[1].DepLink = "deprecated darwin build", "https://example.com/dep/darwin"
 	}
 	exact := []string{"1.0.0+linux", "1.0.0+darwin", "0.9.0", "1.0.0+darwin"}
+	lastAdd := []string{"1.0.0+linux", "1.0.0+darwin"}
+	if simkit.NewRNG(sc.Seed, "bw/meta-twins-plain").Chance(1, 2) {
+		// one of the twins carries no build metadata at all, and comes first in the list
+		rp.Versions[0].V, rp.Versions[1].V = "1.4.0", "1.4.0+build.7"
+		exact = []string{"1.4.0", "1.4.0+build.7", "0.9.0", "1.4.0"}
+		lastAdd = []string{"1.4.0+build.7", "1.4.0"}
+	}
 	mine := func(addr string) bool {
 		pk, _ := splitSub(addr)
 		if i := strings.Index(pk, "@"); i >= 0 {
@@ -573,7 +633,7 @@ func metaTwins(r *simkit.RNG, sc *Scenario) {
 		}
 	}
 	// make sure both twins are asked for
-	sc.Adds = append(sc.Adds, Add{Kind: "registry", Addr: rp.Addr, Constr: "1.0.0+linux", Finder: "F1"}, Add{Kind: "final", Addr: rp.Addr + "@1.0.0+darwin", Finder: "F1"})
+	sc.Adds = append(sc.Adds, Add{Kind: "registry", Addr: rp.Addr, Constr: lastAdd[0], Finder: "F1"}, Add{Kind: "final", Addr: rp.Addr + "@" + lastAdd[1], Finder: "F1"})
 }
 
 func pickConstr(r *simkit.RNG, k *gknobs) string {
@@ -712,6 +772,7 @@ func addHostile(r *simkit.RNG, p *Pkg, i, np int, rootRun bool) {
 		{Path: "h-abs-root", Kind: "link", Target: "/"},
 		{Path: "hd/h-leak", Kind: "link", Target: "h-top/../../victim"},
 		{Path: ".terraformignore", Kind: "fifo", Mode: 0o644},
+		{Path: ".terraformignore", Kind: "link", Target: "h-fifo"},
 		// links that name the very directory the fetcher was told to fill: inside the package
 		// while it is being examined, dangling once the directory has its final name
 		{Path: "h-tmp-rel", Kind: "link", Target: "../@TMPBASE@/main.tf"},
@@ -751,7 +812,7 @@ func addHostile(r *simkit.RNG, p *Pkg, i, np int, rootRun bool) {
 			// a valid link to the package's own root, through which the other one climbs out
 			p.Files = append(p.Files, PFile{Path: "hd/h-top", Kind: "link", Target: ".."})
 		}
-		if c.Path == "h-to-fifo" && !hasPath(p.Files, "h-fifo") {
+		if (c.Path == "h-to-fifo" || (c.Path == ".terraformignore" && c.Target == "h-fifo")) && !hasPath(p.Files, "h-fifo") {
 			p.Files = append(p.Files, PFile{Path: "h-fifo", Kind: "fifo", Mode: 0o644})
 		}
 		if c.Path == "h-chain1" && !hasPath(p.Files, "h-chain2") {
@@ -777,7 +838,8 @@ func genPkgRules(r *simkit.RNG, p *Pkg) string {
 	seen := map[string]bool{}
 	for _, f := range p.Files {
 		for _, s := range strings.Split(f.Path, "/") {
-			if !seen[s] {
+			// (a backslash in a pattern is outside the rule language the property names)
+			if !seen[s] && !strings.Contains(s, "\\") {
 				seen[s] = true
 				names = append(names, s)
 			}
@@ -1026,4 +1088,13 @@ func aliasSpelling(r *simkit.RNG, sc *Scenario) {
 			sc.Regs[i].Versions[j].Source = respell(sc.Regs[i].Versions[j].Source)
 		}
 	}
+}
+
+func (sc *Scenario) regIndexOf(addr string) int {
+	for i := range sc.Regs {
+		if sc.Regs[i].Addr == addr {
+			return i
+		}
+	}
+	return -1
 }
